@@ -451,6 +451,7 @@ S.append(Schema('position_string_utf8', [Rule('R', Seq(F('p', 0, Ref('P')), Opt(
     extract=J(opt(2, 'v.c'), '                o.x[0] = v.p.position.start as i32; o.x[1] = v.p.position.end as i32;',
               '                o.x[2] = v.p.position.start as i32; o.x[3] = v.p.string.len() as i32;',
               '                if v.p.position.end > t.n || v.p.string.as_bytes() != &t.sym[v.p.position.start..v.p.position.end] { o.x[4] = -1; }'),
+    post='        if real.ok && (real.x[1] < 0 || real.x[1] as usize > t.n || !t.input().is_char_boundary(real.x[1] as usize) || !t.input().is_char_boundary(real.x[0].max(0) as usize)) { return Err("C04: a recorded @position range does not start and end on character boundaries inside the input"); }',
     note='@string @position over input with multi-byte characters: the range is in bytes'))
 
 S.append(Schema('include_same_name_other_body', inc_rules(False)[:1] + [Rule('I', Seq(fb(), Lit('x')), skip=False)], 'R', 'ABC', n=3, alphabet='x y',
@@ -594,6 +595,45 @@ S.append(Schema('memo_deep', [Rule('R', Seq(Ref('L'), Eoi()), skip=False, export
                               Rule('I', Seq(Ref('L')), skip=False, memo=True)], 'R', '', n=3, alphabet='xyz',
     props=('C05', 'C01'), cmp_fields=False, extract='', deep=('y', 'x', 'z'),
     note="L $ with @memoize L = 'y' I 'z' | 'x' and @memoize I = L: also for nesting depths 1..2000 the memoized and the plain parser agree"))
+
+# ---------------------------------------------------------------------------------------------- sixth batch (after seeding round 5)
+# C03: a multi-field optional group one of whose fields occurs again in the rule (-> Vec): the value built for the skipped group
+S.append(Schema('optional_field_reused', [Rule('R', Seq(Opt(Seq(fa(), fb())), fa()), skip=False, export=True)], 'R', 'AB', n=3,
+    props=('C03', 'C02'), extract=J(ty('v.a', 'Vec<A>'), ty('v.b', 'Option<B>'), vec(0, 'v.a'), opt(1, 'v.b')),
+    note='[a:A b:B] a:A: a field of a multi-field optional that is a Vec at rule level'))
+
+# C03: a field named like a local of the closure template
+S.append(Schema('closure_field_named_result', [Rule('R', Seq(Star(F('result', 0, A)), Opt(fb()), Eoi()), skip=False, export=True)], 'R', 'AB', n=3, nonzero='A',
+    props=('C03',), extract=J(ty('v.result', 'Vec<A>'), vec(0, 'v.result'), opt(1, 'v.b')),
+    note='{result:A} [b:B] $: field names do not collide with the names the templates use for their own locals'))
+
+# C06: @memoize with a configured user context
+S.append(Schema('memo_user_ctx', [Rule('R', Alt(Seq(F('m', 0, Ref('M')), fc()), Seq(F('m', 0, Ref('M')), fd())), skip=False, export=True),
+                                  Rule('M', Seq(fa()), skip=False, memo=True)], 'R', 'ACD', n=3, user_ctx='crate::ops::Ctx',
+    props=('C06', 'C05'), cmp_err=False,
+    extract=J('                o.f[0].push(v.m.a);', opt(2, 'v.c'), opt(3, 'v.d')),
+    post='        if max_count(0) > 1 { return Err("C06: the body of a @memoize rule was evaluated more than once at one position"); }',
+    note='m:M c:C | m:M d:D with @memoize M = a:A and a user context type: the packrat bound does not depend on the context setting'))
+
+# C06: a memoized FAILURE is answered from the cache also after another alternative has failed further on
+S.append(Schema('memo_failure_reuse', [Rule('R', Alt(Seq(F('m', 0, Ref('M')), fc()), Seq(fd(), fc()), Seq(F('m', 0, Ref('M')), fd())), skip=False, export=True),
+                                       Rule('M', Seq(fa(), fb()), skip=False, memo=True)], 'R', 'ABCD', n=2,
+    props=('C06', 'C05'), cmp_err=False,
+    extract=J('                if let Some(m) = &v.m { o.f[0].push(m.a); o.f[1].push(m.b); }', opt(2, 'v.c'), opt(3, 'v.d')),
+    post='        if max_count(0) > 1 || max_count(1) > 1 { return Err("C06: the body of a @memoize rule was evaluated more than once at one position"); }',
+    note='m:M c:C | d:D c:C | m:M d:D with @memoize M = a:A b:B: a failure cached at a position is reused whatever was recorded since'))
+
+# C08: a @char rule that refers to another @char rule by name skips nothing
+S.append(Schema('char_rule_ws', [Rule('R', Seq(F('k', 0, Ref('Cl')), Opt(F('j', 1, Ref('Cl'))), Eoi()), skip=False, export=True),
+                                 CharRule('Cl', [Lit('x'), Ref('Ot')]), CharRule('Ot', [Lit('y')])], 'R', '', n=3, alphabet='xy ',
+    props=('C08', 'C01'),
+    extract=J('                o.f[0].push(1000 + v.k as u16);', '                if let Some(j) = v.j { o.f[1].push(1000 + j as u16); }'),
+    note="@no_skip_ws R = k:Cl [j:Cl] $ with @char Cl = 'x' | Ot and @char Ot = 'y': no blank is skipped in front of a nested @char reference"))
+
+# C01 / C12: a case-insensitive literal that starts with a non-letter is still case-insensitive
+S.append(Schema('term_insensitive_nonletter', [Rule('R', Seq(Lit('1y', insensitive=True, src="i'1Y'"), Opt(fa()), Eoi()), skip=False, export=True)], 'R', 'A', n=3, alphabet='1yY',
+    props=('C01', 'C12'), extract=J(opt(0, 'v.a')),
+    note="i'1Y' [a:A] $: the i marker applies to every letter of the literal, wherever it stands"))
 
 # ---------------------------------------------------------------------------------------------- differential twins
 # C13 / C05 / C19 are statements of the form "with the feature the parser behaves exactly as without it". They are decided by
